@@ -40,7 +40,7 @@ var vCookieMutantKinds = []string{
 
 var vTLSKinds = []string{
 	"usercert", "usercert-denylisted", "ipcert-inside", "ipcert-outside", "ipcert-inside-nonautomation",
-	"adminca-cert", "tls-nochain", "usercert-singlechain-fixture",
+	"adminca-cert", "tls-nochain", "usercert-singlechain-fixture", "ipcert-loopback-forwarded",
 }
 
 var vOtherKinds = []string{"none", "basic-ok", "basic-wrongpw", "basic-unknownuser", "cookie-peer-key"}
@@ -230,6 +230,13 @@ func (w *vWorld) applyCred(req *http.Request, cred vCred, user string) vProven {
 	case "ipcert-outside":
 		// ... and outside the /20 although inside the enclosing /16
 		req.RemoteAddr = "10.20.200.7:4000"
+		w.vAttachTLS(req, w.roleCert(user, []string{"10.20.16.0/20"}, vKey("p256", "tlsclient").Public(), 0))
+	case "ipcert-loopback-forwarded":
+		// the TCP peer is the loopback address (outside the netblock); proxy style
+		// headers claim an address inside it: the TCP peer alone decides
+		req.RemoteAddr = "127.0.0.1:4000"
+		req.Header.Set("X-Forwarded-For", "10.20.17.40")
+		req.Header.Set("X-Real-Ip", "10.20.17.40")
 		w.vAttachTLS(req, w.roleCert(user, []string{"10.20.16.0/20"}, vKey("p256", "tlsclient").Public(), 0))
 	case "ipcert-inside-nonautomation":
 		req.RemoteAddr = "10.20.17.40:4000"
